@@ -3,6 +3,7 @@ package checks
 import (
 	"encoding/json"
 	"fmt"
+	"github.com/vektah/gqlparser/v2/gqlerror"
 	"strconv"
 	"strings"
 
@@ -159,6 +160,7 @@ func checkC15(c *core.Ctx) {
 		return
 	}
 	var nontrivial int64
+	docCache := map[string]*ast.QueryDocument{}
 	for i, ac := range cases {
 		argText := ""
 		if len(ac.Use) > 0 {
@@ -167,7 +169,16 @@ func checkC15(c *core.Ctx) {
 		}
 		q := "query($p: Int, $q: Int = 3, $n: Int = null) { f" + argText + " @dir" + argText + " g(u1: $p, u2: $q, u3: $n) }"
 		big := len(ac.Use) > 0 && (hasKind(ac.Use[0], "bigint") || hasKind(ac.Use[0], "bigfloat"))
-		doc, errs := gqlparser.LoadQuery(schema, q)
+		// one parsed and validated document per text, shared by all rows that differ only in the supplied
+		// variables: resolving arguments again on the same tree with other values must not remember anything
+		doc, cached := docCache[q]
+		var errs gqlerror.List
+		if !cached {
+			doc, errs = gqlparser.LoadQuery(schema, q)
+			if len(errs) == 0 {
+				docCache[q] = doc
+			}
+		}
 		if len(errs) > 0 {
 			if big {
 				// a literal the implementation cannot represent was refused by validation: nothing to resolve
@@ -231,6 +242,88 @@ func checkC15(c *core.Ctx) {
 		}
 	}
 	c.Count(int64(len(cases))*2, nontrivial, int64(len(cases)))
+	argMapOps(c, schema)
 	c.Exhaustive = true
 	c.Logf("ArgMap_MC: %d rows replayed into Field.ArgumentMap and Directive.ArgumentMap", len(cases))
+}
+
+// argMapOps: two operations sharing a fragment (ArgMapOps_MC), both orders of the operations in the
+// document, every row on ONE validated tree per order
+func argMapOps(c *core.Ctx, schema *ast.Schema) {
+	type opCase struct {
+		Op       int    `json:"op"`
+		Arg      string `json:"arg"`
+		Use      []JVal `json:"use"`
+		Supplied []struct {
+			Name string `json:"name"`
+			V    JVal   `json:"v"`
+		} `json:"supplied"`
+		Exp struct {
+			Present bool `json:"present"`
+			Val     JVal `json:"val"`
+		} `json:"exp"`
+	}
+	var cases []opCase
+	r := c.RunTLC(tlc.Opts{Module: "ArgMapOps_MC", CfgFile: "ArgMapOps_MC.cfg", Workers: 2, LineFn: func(l string) {
+		if js, ok := tlc.PrintedJSON(l, "CASE"); ok {
+			var oc opCase
+			if json.Unmarshal([]byte(js), &oc) == nil {
+				cases = append(cases, oc)
+			}
+		}
+	}})
+	tlc.Cleanup(r)
+	if c.HasInternal() {
+		return
+	}
+	if int64(len(cases)) != r.Distinct {
+		c.Internal("ArgMapOps_MC: %d cases for %d states", len(cases), r.Distinct)
+		return
+	}
+	ops := []string{"query Plain($p: Int) { ...F }", "query WithDefault($p: Int = 9) { ...F }"}
+	docs := map[string]*ast.QueryDocument{}
+	for _, oc := range cases {
+		frag := " fragment F on Query { f(" + oc.Arg + ": " + argLiteral(oc.Use[0]) + ") }"
+		for order := 0; order < 2; order++ {
+			text := ops[order] + " " + ops[1-order] + frag
+			doc := docs[text]
+			if doc == nil {
+				d, errs := gqlparser.LoadQuery(schema, text)
+				if len(errs) > 0 {
+					c.Internal("document %s does not validate: %v", text, errs)
+					return
+				}
+				doc = d
+				docs[text] = d
+			}
+			opName := []string{"", "Plain", "WithDefault"}[oc.Op]
+			op := doc.Operations.ForName(opName)
+			vars := map[string]interface{}{}
+			for _, s := range oc.Supplied {
+				vars[s.Name] = toGo(s.V, 0)
+			}
+			coerced, err := validator.VariableValues(schema, op, vars)
+			if err != nil {
+				c.Internal("variables do not coerce: %v", err)
+				return
+			}
+			field := doc.Fragments.ForName("F").SelectionSet[0].(*ast.Field)
+			m, crash := argMapOf(func() map[string]interface{} { return field.ArgumentMap(coerced) })
+			what := ""
+			got, present := m[oc.Arg]
+			switch {
+			case crash != "":
+				what = crash
+			case present != oc.Exp.Present:
+				what = fmt.Sprintf("argument %q present=%v, expected %v", oc.Arg, present, oc.Exp.Present)
+			case present && !jvEqual(jvNorm(oc.Exp.Val), jvNorm(fromGo(got))):
+				what = fmt.Sprintf("argument %q = %s, expected %s", oc.Arg, fromGo(got), oc.Exp.Val)
+			}
+			if what != "" {
+				c.Violation(fmt.Sprintf("Field.ArgumentMap for operation %s of %s with variables %v: %s", opName, text, vars, what), map[string]any{"query": text, "operation": opName, "vars": fmt.Sprint(vars), "what": what})
+			}
+		}
+	}
+	c.Count(int64(len(cases))*2, int64(len(cases)), int64(len(cases)))
+	c.Logf("ArgMapOps_MC: %d rows x 2 orders of the operations replayed (two operations sharing a fragment)", len(cases))
 }
